@@ -7,6 +7,7 @@ import (
 	"runtime"
 	"sort"
 	"strconv"
+	"strings"
 	"sync"
 )
 
@@ -264,6 +265,55 @@ func (s *freezeSched) Pick(step int, opts []string, internal []bool) int {
 		}
 	}
 	return s.rng.Intn(len(opts))
+}
+
+// barrierSched collects goroutines at a set of hooks and releases them together (Pick returns -1 = burst): the code
+// between those hooks and the next ones then runs in parallel on the real scheduler. This is how a counterexample of
+// a design-model variant whose steps lie inside one critical section of the code ("check, then set") is aimed at.
+type barrierSched struct {
+	rng    *rand.Rand
+	points map[string]bool
+	n      int
+	waited int
+	after  int        // armed from this virtual time (ms) on
+	now    func() int // virtual time
+	fired  func()     // called when the barrier opens
+}
+
+func (s *barrierSched) Pick(step int, opts []string, internal []bool) int {
+	var at, others []int
+	adv := -1
+	for i, o := range opts {
+		if o == "advance" {
+			adv = i
+			continue
+		}
+		p := o
+		if k := strings.Index(o, "@"); k >= 0 {
+			p = o[:k]
+		}
+		if (s.points[p] || s.points[o]) && s.now() >= s.after {
+			at = append(at, i)
+		} else {
+			others = append(others, i)
+		}
+	}
+	if len(at) >= s.n {
+		s.waited = 0
+		if s.fired != nil {
+			s.fired()
+		}
+		return -1
+	}
+	if len(others) > 0 {
+		return others[s.rng.Intn(len(others))]
+	}
+	if adv >= 0 && (len(at) == 0 || s.waited < 30) {
+		s.waited++
+		return adv
+	}
+	s.waited = 0
+	return -1
 }
 
 // replaySched follows a recorded decision list; on a miss it falls back.
